@@ -174,6 +174,14 @@ func (p *RunnableProcessor) Teardown(ctx context.Context) error {
 	return err
 }
 
+// Reserved reports whether the processor instance is still marked running, i.e.
+// it was made runnable and has not been torn down since. A pipeline start that
+// fails before it opened every processor uses it to find the ones it still has
+// to release.
+func (p *RunnableProcessor) Reserved() bool {
+	return p.running.Load()
+}
+
 // TeardownForReconfigure tears down the processor plugin WITHOUT clearing the
 // shared Instance.running flag. It exists for the live in-place reconfigure swap
 // (ProcessorNode.applyPendingSwap), where a RunnableProcessor is torn down but
